@@ -10,6 +10,7 @@ import time
 import traceback
 
 ROOT = os.path.dirname(os.path.dirname(os.path.abspath(__file__)))
+OUT = os.environ.get('VERIF_OUT', ROOT)  # where evidence/ and replays/ are written (mutant evaluation uses a scratch place)
 PY = os.environ.get('VERIF_PY', '/venv/bin/python')
 NCPU = os.cpu_count() or 4
 
@@ -171,7 +172,7 @@ def run_check(pid, tier, seed, jobs=None):
             newkeys = still
         new_violations.append((r, newkeys))
 
-    os.makedirs(os.path.join(ROOT, 'replays', pid), exist_ok=True)
+    os.makedirs(os.path.join(OUT, 'replays', pid), exist_ok=True)
     printed = set()
     per_key = {}
     for r, newkeys in new_violations:
@@ -179,7 +180,7 @@ def run_check(pid, tier, seed, jobs=None):
             per_key[k] = per_key.get(k, 0) + 1
             if per_key[k] > 3:
                 continue  # at most three witnesses per mechanism
-            path = os.path.join(ROOT, 'replays', pid, '%s-%s.json' % (''.join(ch if ch.isalnum() else '_' for ch in k)[:80], case_hash(r['case'])))
+            path = os.path.join(OUT, 'replays', pid, '%s-%s.json' % (''.join(ch if ch.isalnum() else '_' for ch in k)[:80], case_hash(r['case'])))
             with open(path, 'w') as f:
                 json.dump({'property': pid, 'key': k, 'case': r['case'], 'violations': [v for v in r['violations'] if v['key'] == k], 'tier': tier, 'seed': seed}, f, indent=1, default=repr)
             if k not in printed:
@@ -249,8 +250,8 @@ def run_check(pid, tier, seed, jobs=None):
             ev['coverage'].update(mod.extra_evidence(results))
         except Exception:
             ev['coverage']['extra_evidence_error'] = traceback.format_exc()[-500:]
-    os.makedirs(os.path.join(ROOT, 'evidence'), exist_ok=True)
-    with open(os.path.join(ROOT, 'evidence', pid + '.json'), 'w') as f:
+    os.makedirs(os.path.join(OUT, 'evidence'), exist_ok=True)
+    with open(os.path.join(OUT, 'evidence', pid + '.json'), 'w') as f:
         json.dump(ev, f, indent=1, default=repr)
     print('%s tier=%s seed=%d cases=%d evaluated=%d nontrivial=%d inconclusive=%d known=%d new-violations=%d wall=%.1fs' % (
         pid, tier, seed, len(cases), n_eval, len(nontrivial), n_inc, sum(known_hits.values()), len(new_violations), time.monotonic() - t0))
